@@ -53,7 +53,9 @@ func (w *World) stopAll() {
 	for _, c := range w.clients {
 		c.cli.Stop()
 	}
-	w.srv.Stop()
+	if w.srv != nil {
+		w.srv.Stop()
+	}
 }
 
 // runWorkload runs every scripted session to its end.
